@@ -49,9 +49,11 @@ where
     fn _serialize_inner(&self, backend: &mut impl WriteWithNames) -> Result<()> {
         // SAFETY: the fake vector we create is never used, and we forget it immediately
         // after writing it to the backend.
-        let fake = unsafe { Vec::from_raw_parts(self.as_ptr() as *mut T, self.len(), self.len()) };
-        ser::SerializeInner::_serialize_inner(&fake, backend)?;
-        core::mem::forget(fake);
-        Ok(())
+        // The fake vector aliases borrowed memory and must never be dropped,
+        // not even when serialization returns early with an error.
+        let fake = core::mem::ManuallyDrop::new(unsafe {
+            Vec::from_raw_parts(self.as_ptr() as *mut T, self.len(), self.len())
+        });
+        ser::SerializeInner::_serialize_inner(&*fake, backend)
     }
 }
